@@ -213,7 +213,9 @@ package scanner
 //@   ensures ret == nil ==> EventWF(s)
 //@   ensures ret == nil ==> s.lastEnd <= s.curIndex && 0 - 1 <= s.lastEnd && s.curIndex <= s.dataSize && (s.open != 0 ==> s.openBegin <= s.curIndex + 1 && s.lastEnd < s.openBegin)
 //@   ensures [C02] ret != nil ==> ret.file == s.file && ret.index <= s.dataSize
+//@   ensures [C14] ret == nil ==> len(s.finds) >= old(len(s.finds)) && (forall k :: 0 <= k && k < old(len(s.finds)) ==> s.finds[k] == old(s.finds[k]))
 //@   ensures [C14] ret == nil && c == 0 ==> s.open == 0
+//@   ensures [C14] ret == nil && old(s.open) == 0 && cmt(self) == 0 && !(c == 32 || c == 9 || c == 10 || c == 13 || c == 35 || c == 0) && !skipok(self, c) ==> s.curIndex < old(s.curIndex) || (len(s.finds) > old(len(s.finds)) && s.finds[old(len(s.finds))].position == old(s.curIndex) && !isEnd(s.finds[old(len(s.finds))].type_))
 //@   ensures ret == nil && noeof(s.step) == 1 ==> s.curIndex + 1 < s.dataSize
 //@   ensures [C14] ret == nil && s.curIndex < s.dataSize && open(s.step) == 1 ==> s.curIndex + 1 - s.openBegin == len(spell(s.step))
 //@   ensures [C14] ret == nil && old(s.open) != 1 && s.open == 1 ==> spell(s.step) == startCls(c) && s.openBegin == old(s.curIndex) && s.curIndex == old(s.curIndex)
@@ -330,6 +332,12 @@ package scanner
 //@ table orank(stepFunc) int : default=20, stateParameterStart=0, stateAnnotationSign2=110, stateDescriptionTextNewline=21, stateDescriptionTextBegin=21, stateDescriptionTextBeginStarter=21
 //@ table orank(stepFunc) int : stateBodyBody=30, stateTypeBody=30, stateRequestBody=30, stateResponseBody=30, stateSingleComment=30, stateAnnotation=30
 //@ table orank(stepFunc) int : stateBodyBodyOrKeyword=30, stateTypeBodyOrKeyword=30, stateRequestBodyOrKeyword=30, stateResponseBodyOrKeyword=30, stateCommentStarted=30, stateCommentDouble=30, stateAnnotationTextStart=30
+
+// C14 "nothing but trivia is skipped": outside comments, with no lexeme open, a byte that is not blank, line end, '#' or
+// the end marker either is rejected, or begins a lexeme (the first event the step emits is a Begin or Single event at this
+// very byte), or is one of the annotation delimiter bytes (skipok), or the scanner steps back to look at it again.
+//@ table cmt(stepFunc) int : default=0, stateCommentStarted=1, stateCommentDouble=1, stateSingleComment=1, stateCommentBlock=1, stateCommentOnceClosed=1, stateCommentTwiceClosed=1
+//@ pred skipok(f stepFunc, c byte) = ((f == stateParameterOrAnnotation || f == stateParameterOrAnnotationAfterFirstSpace) && c == 47) || (f == stateAnnotationSign2 && (c == 47 || c == 42))
 
 // noeof(f) == 1: f never runs on the end-of-input marker (it opens a lexeme on the byte it is given)
 //@ table noeof(stepFunc) int : default=0, stateParameterStart=1
